@@ -4,7 +4,7 @@ From GoPdf.Base Require Import Bytes Res.
 From GoPdf.Gen Require Import Gen_C08 Gen_Limits.
 From GoPdf.C08 Require Import Stream Simple LZW Predict Params Chain Classify Run
   SimpleProofs LZWProofs PredictProofs ParamsProofs ChainProofs ClassifyProofs BudgetProofs RunProofs
-  Charge CCITT ChargeProofs CCITTProofs.
+  Charge CCITT ChargeProofs CCITTProofs DCTFrames DCTFramesProofs.
 From GoPdf.Gen Require Import Gen_C08dct.
 Import ListNotations.
 
@@ -96,3 +96,11 @@ Lemma charge_covers_alloc_lemma :
      let p := fst (pool_run (Pool 0 0 limit) ops 0) in (0 <= p_live p <= limit)%Z) /\
   lzw_table_bytes = 20480%Z.
 Proof. exact (conj predict_site_ok (conj ccitt_site_ok (conj pool_live_within_limit lzw_table_bytes_eq))). Qed.
+
+
+Lemma dct_output_rows_lemma :
+  forall k h scans, (0 <= h)%Z -> (0 <= fst (decode_frame k h scans) <= h)%Z.
+Proof.
+  intros k h scans Hh. unfold decode_frame. apply run_frame_rows; [exact Hh|].
+  unfold ds_inv. cbn. repeat split; intros; try discriminate; reflexivity.
+Qed.
